@@ -46,7 +46,7 @@ type c20Case struct {
 type c20Key struct{ method, url, status string }
 
 type c20Agg struct {
-	in, out  uint64
+	in, out  float64 // sums as the exporter forms them: in float64, which does not wrap at 2^64
 	lats     []float64
 	sum, abs float64
 	fails    map[string]int
@@ -69,8 +69,8 @@ func c20Model(rs []c20Res) map[c20Key]*c20Agg {
 			a = &c20Agg{fails: map[string]int{}}
 			model[k] = a
 		}
-		a.in += r.In
-		a.out += r.Out
+		a.in += float64(r.In)
+		a.out += float64(r.Out)
 		secs := time.Duration(r.Latency).Seconds()
 		a.lats = append(a.lats, secs)
 		a.sum += secs
@@ -181,8 +181,8 @@ func c20Compare(fams []*dto.MetricFamily, model map[c20Key]*c20Agg) error {
 	// counters
 	for _, spec := range []struct {
 		name string
-		want func(*c20Agg) uint64
-	}{{"request_bytes_in", func(a *c20Agg) uint64 { return a.in }}, {"request_bytes_out", func(a *c20Agg) uint64 { return a.out }}} {
+		want func(*c20Agg) float64
+	}{{"request_bytes_in", func(a *c20Agg) float64 { return a.in }}, {"request_bytes_out", func(a *c20Agg) float64 { return a.out }}} {
 		f := byName[spec.name]
 		if f == nil {
 			return fmt.Errorf("metric %s not exported", spec.name)
@@ -195,7 +195,8 @@ func c20Compare(fams []*dto.MetricFamily, model map[c20Key]*c20Agg) error {
 				return fmt.Errorf("%s has a series %v that was never observed", spec.name, k)
 			}
 			seen[k] = true
-			if got, want := m.GetCounter().GetValue(), float64(spec.want(a)); got != want {
+			// (exact below 2^53; beyond, the order of the additions shows in the last bits)
+			if got, want := m.GetCounter().GetValue(), spec.want(a); got != want && math.Abs(got-want) > 1e-12*want {
 				return fmt.Errorf("%s%v = %v, sum over the observed results is %v", spec.name, k, got, want)
 			}
 		}
@@ -325,6 +326,9 @@ func TestC20Prom(t *testing.T) {
 			}
 			r.In = rapid.Uint64Range(0, 1<<32-1).Draw(t, "in")
 			r.Out = rapid.Uint64Range(0, 1<<32-1).Draw(t, "out")
+			if i == 0 && rapid.IntRange(0, 4).Draw(t, "hugebytes") == 0 { // one exchange of 2^63 bytes and more (a series' total stays below 2^64, where the client library's integer counter wraps)
+				r.In, r.Out = rapid.SampledFrom([]uint64{1<<63 - 1, 1 << 63, 1<<63 + 4096, 3 << 62}).Draw(t, "hugein"), rapid.SampledFrom([]uint64{0, 1 << 63, 3 << 62}).Draw(t, "hugeout")
+			}
 			switch rapid.IntRange(0, 3).Draw(t, "lk") {
 			case 0: // exactly on a default bucket bound
 				r.Latency = int64(math.Round(rapid.SampledFrom(bounds).Draw(t, "lb") * 1e9))
